@@ -1886,10 +1886,23 @@ impl FixtureDatabase {
         file_path: &Path,
         fixture_name: &str,
     ) -> Option<FixtureDefinition> {
+        // The lookup every feature uses (same file - the last definition -, the file's own
+        // imports, conftest.py files upwards with what they import, plugins, third-party)
+        if let Some(def) = self.find_closest_definition(file_path, fixture_name) {
+            return Some(def);
+        }
+
+        // Nothing is visible from the file by those rules (imports that cannot be followed
+        // on disk, for instance): fall back to the best candidate by name. Ties are broken
+        // by location, never by which definition happened to be registered first.
         let definitions = self.definitions.get(fixture_name)?;
 
         // Priority 1: Same file
-        if let Some(def) = definitions.iter().find(|d| d.file_path == file_path) {
+        if let Some(def) = definitions
+            .iter()
+            .filter(|d| d.file_path == file_path)
+            .max_by_key(|d| d.line)
+        {
             return Some(def.clone());
         }
 
@@ -1906,11 +1919,14 @@ impl FixtureDatabase {
                 if let Some(parent) = def.file_path.parent() {
                     if file_path.starts_with(parent) {
                         let depth = parent.components().count();
-                        if depth > best_depth {
-                            // Deeper = closer conftest
-                            best_conftest = Some(def);
-                            best_depth = depth;
-                        } else if best_conftest.is_none() {
+                        let better = match best_conftest {
+                            None => true,
+                            // Deeper = closer conftest; the last definition of a conftest
+                            Some(best) => {
+                                depth > best_depth || (depth == best_depth && def.line > best.line)
+                            }
+                        };
+                        if better {
                             best_conftest = Some(def);
                             best_depth = depth;
                         }
@@ -1926,18 +1942,26 @@ impl FixtureDatabase {
         // Priority 3: Plugin fixtures (pytest11 entry points)
         if let Some(def) = definitions
             .iter()
-            .find(|d| d.is_plugin && !d.is_third_party)
+            .filter(|d| d.is_plugin && !d.is_third_party)
+            .min_by(|a, b| Self::location_order(a, b))
         {
             return Some(def.clone());
         }
 
         // Priority 4: Third-party (site-packages)
-        if let Some(def) = definitions.iter().find(|d| d.is_third_party) {
+        if let Some(def) = definitions
+            .iter()
+            .filter(|d| d.is_third_party)
+            .min_by(|a, b| Self::location_order(a, b))
+        {
             return Some(def.clone());
         }
 
-        // Fallback: first definition
-        definitions.first().cloned()
+        // Fallback: any definition
+        definitions
+            .iter()
+            .min_by(|a, b| Self::location_order(a, b))
+            .cloned()
     }
 
     /// Find the name of the function/fixture containing a given line.
